@@ -1163,3 +1163,366 @@ async fn checkpoint_file_decoder_is_total() {
 
     if !(result.is_ok()) { witness(format!("the checkpoint file decoder (Storage::load_checkpoint_file) panicked on a {}-byte checkpoint file whose first byte is 0xff (String::from_utf8(..).unwrap()); a decoder fed bytes from disk must return a value or an error, never panic", bytes.len())); }
 }
+
+/// C03: the ledger is the replay of the longest chain — purging a never-validated block that was merely stored next to the chain
+/// does not delete the outputs it names — scenario of an independent audit
+#[tokio::test]
+#[serial_test::serial]
+async fn purging_a_side_block_leaves_the_ledger_alone() {
+    #[allow(unused_imports)] use crate::core::util::crypto::generate_keys;
+    #[allow(unused_imports)] use crate::core::util::test::node_tester::test::NodeTester;
+    #[allow(unused_imports)] use crate::core::defs::NOLAN_PER_SAITO;
+    #[allow(unused_imports)] use crate::core::defs::PrintForLog;
+    #[allow(unused_imports)] use crate::core::consensus::block::Block;
+    #[allow(unused_imports)] use crate::core::util::crypto::hash;
+    #[allow(unused_imports)] use crate::core::consensus_thread::ConsensusEvent;
+    #[allow(unused_imports)] use crate::core::process::process_event::ProcessEvent;
+    #[allow(unused_imports)] use std::panic::AssertUnwindSafe;
+    use crate::core::consensus::block::BlockType;
+    use crate::core::consensus::slip::Slip;
+    use crate::core::consensus::transaction::{Transaction, TransactionType};
+
+    NodeTester::delete_data().await.unwrap();
+    // genesis period 10: blocks are purged once they are 20 blocks behind the tip
+    let mut tester = NodeTester::new(10, None, None);
+    let public_key = tester.get_public_key().await;
+    let victim_key = generate_keys().0;
+    let issuance = vec![(public_key.to_base58(), 100_000 * NOLAN_PER_SAITO)];
+    tester.set_issuance(issuance).await.unwrap();
+    tester.set_staking_enabled(false).await;
+    tester.init().await.unwrap();
+    tester.wait_till_block_id(1).await.unwrap();
+
+    // honest chain 1..22, block 22 pays 5000 nolan to the victim
+    for i in 2..=22u64 {
+        let tx = if i == 22 {
+            tester.create_transaction(5000, 10, victim_key).await.unwrap()
+        } else {
+            tester.create_transaction(10, 10, public_key).await.unwrap()
+        };
+        tester.add_transaction(tx).await;
+        tester.wait_till_block_id(i).await.unwrap();
+    }
+
+    // the victim's output of block 22 and the parent (block 3) the hostile block hangs on
+    let victim_slip: Slip;
+    let parent_hash;
+    let parent_timestamp;
+    {
+        let blockchain = tester.consensus_thread.blockchain_lock.read().await;
+        assert_eq!(blockchain.get_latest_block_id(), 22);
+        let block22 = blockchain.get_latest_block().unwrap();
+        assert!(block22.in_longest_chain);
+        victim_slip = block22
+            .transactions
+            .iter()
+            .flat_map(|tx| tx.to.iter())
+            .find(|slip| slip.public_key == victim_key && slip.amount == 5000)
+            .expect("block 22 pays the victim")
+            .clone();
+        assert_eq!(victim_slip.block_id, 22);
+        assert_eq!(
+            blockchain.utxoset.get(&victim_slip.get_utxoset_key()),
+            Some(&true),
+            "setup: the victim's output is spendable after block 22"
+        );
+        parent_hash = blockchain
+            .blockring
+            .get_longest_chain_block_hash_at_block_id(3)
+            .expect("block 3 is still held");
+        parent_timestamp = blockchain.get_block(&parent_hash).unwrap().timestamp;
+    }
+
+    // the hostile block: id 4, child of block 3, unsigned, one unsigned "transaction" whose input
+    // names the victim's output. it is a sibling of the chain's block 4 and never becomes the tip,
+    // so nothing in it is ever validated
+    let mut input = Slip::default();
+    input.public_key = victim_slip.public_key;
+    input.amount = victim_slip.amount;
+    input.block_id = victim_slip.block_id;
+    input.tx_ordinal = victim_slip.tx_ordinal;
+    input.slip_index = victim_slip.slip_index;
+    input.slip_type = victim_slip.slip_type;
+    let mut hostile_tx = Transaction::default();
+    hostile_tx.transaction_type = TransactionType::Normal;
+    hostile_tx.from.push(input);
+    let mut hostile = Block::new();
+    hostile.id = 4;
+    hostile.previous_block_hash = parent_hash;
+    hostile.timestamp = parent_timestamp + 1;
+    hostile.creator = generate_keys().0;
+    hostile.transactions.push(hostile_tx);
+    hostile.generate().unwrap();
+    // what a peer would send
+    let hostile = Block::deserialize_from_net(&hostile.serialize_for_net(BlockType::Full))
+        .expect("the hostile block is a decodable buffer");
+    let mut hostile_for_hash = hostile.clone();
+    hostile_for_hash.generate().unwrap();
+    let hostile_hash = hostile_for_hash.hash;
+
+    tester
+        .consensus_thread
+        .process_event(ConsensusEvent::BlockFetched {
+            block: hostile,
+            peer_index: 0,
+        })
+        .await;
+    {
+        let blockchain = tester.consensus_thread.blockchain_lock.read().await;
+        let stored = blockchain
+            .get_block(&hostile_hash)
+            .expect("the hostile block was stored as a side block");
+        assert!(!stored.in_longest_chain);
+        assert_eq!(blockchain.get_latest_block_id(), 22);
+        assert_eq!(
+            blockchain.utxoset.get(&victim_slip.get_utxoset_key()),
+            Some(&true),
+            "control: storing the side block leaves the ledger alone"
+        );
+    }
+
+    // two more honest blocks; block 24 purges height 4. (the node's own supply check panics once the
+    // output is gone, so the step is run under catch_unwind and the ledger is inspected afterwards)
+    let blockchain_lock = tester.consensus_thread.blockchain_lock.clone();
+    let mut node_aborted = false;
+    for i in 23..=24u64 {
+        let step = std::panic::AssertUnwindSafe(async {
+            let tx = tester.create_transaction(10, 10, public_key).await.unwrap();
+            tester.add_transaction(tx).await;
+            tester.wait_till_block_id(i).await.unwrap();
+        });
+        if futures::FutureExt::catch_unwind(step).await.is_err() {
+            node_aborted = true;
+        }
+        let blockchain = blockchain_lock.read().await;
+        // no block of the chain spends the victim's output
+        let block = blockchain.get_latest_block().unwrap();
+        assert_eq!(block.id, i, "setup: the chain has reached block {}", i);
+        assert!(block.in_longest_chain);
+        assert!(
+            !block
+                .transactions
+                .iter()
+                .flat_map(|tx| tx.from.iter())
+                .any(|slip| slip.get_utxoset_key() == victim_slip.get_utxoset_key()),
+            "setup: block {} of the chain does not spend the victim's output",
+            i
+        );
+        if i == 23 {
+            assert!(!node_aborted);
+            assert_eq!(
+                blockchain.utxoset.get(&victim_slip.get_utxoset_key()),
+                Some(&true),
+                "control: still spendable at tip 23 (height 4 not purged yet)"
+            );
+        }
+    }
+
+    let blockchain = blockchain_lock.read().await;
+    assert_eq!(blockchain.get_latest_block_id(), 24);
+    assert!(
+        blockchain.get_block(&hostile_hash).is_none(),
+        "setup: the side block of height 4 has been purged at tip 24"
+    );
+    if !(blockchain.utxoset.contains_key(&victim_slip.get_utxoset_key())) { witness(format!("the 5000 nolan output of block 22 (tx {} slip {}) is gone from the utxoset at tip 24 although no block of the chain spends it: purging the never-validated, unsigned side block of height 4 deleted the output its transaction merely names as an input, so the ledger is no longer the replay of the longest chain (node aborted by its own supply check: {})", victim_slip.tx_ordinal, victim_slip.slip_index, node_aborted)); }
+}
+
+/// C11/C14: one golden ticket transaction from a peer whose solution does not meet the tip's difficulty does not stall block
+/// production (the bundler drops it; the node's own tickets are pooled again) — scenario of an independent audit
+#[tokio::test]
+#[serial_test::serial]
+async fn unsolved_golden_ticket_from_a_peer_does_not_stop_block_production() {
+    #[allow(unused_imports)] use crate::core::util::test::node_tester::test::TestTimeKeeper;
+    #[allow(unused_imports)] use crate::core::process::keep_time::KeepTime;
+    #[allow(unused_imports)] use crate::core::util::crypto::generate_keys;
+    #[allow(unused_imports)] use crate::core::util::test::node_tester::test::NodeTester;
+    #[allow(unused_imports)] use crate::core::defs::NOLAN_PER_SAITO;
+    #[allow(unused_imports)] use crate::core::defs::PrintForLog;
+    #[allow(unused_imports)] use crate::core::consensus::transaction::Transaction;
+    #[allow(unused_imports)] use crate::core::defs::SaitoHash;
+    #[allow(unused_imports)] use crate::core::process::process_event::ProcessEvent;
+    use crate::core::consensus::golden_ticket::GoldenTicket;
+    use crate::core::consensus::wallet::Wallet;
+    use crate::core::defs::SaitoPublicKey;
+    use crate::core::io::network_event::NetworkEvent;
+    use crate::core::msg::message::Message;
+    use crate::core::util::crypto::{generate_random_bytes, hash};
+
+    // One round: honest blocks until the tip asks for a difficulty of at least 2; then one more
+    // block while this node's miner is silent (so that the peer's ticket for it is the first to
+    // arrive: on a live network mining takes a while, a peer that sends right after the block
+    // always wins that race); then the peer relays a golden ticket transaction for that tip whose
+    // solution is valid / not valid; then the node's miner is switched on again, an honest
+    // user sends a fee-paying transaction and the node runs for up to 5 s of wall clock, which
+    // are 50_000 s of node time (the tester's clock runs 10_000 times faster).
+    // returns (tip id, tip difficulty, latest block id afterwards, tickets the node's own miner
+    // found for the tip, whether the peer's ticket is still the one pooled for the tip)
+    async fn round(
+        tester: &mut NodeTester,
+        peer_index: u64,
+        atk_public_key: SaitoPublicKey,
+        atk_private_key: [u8; 32],
+        valid_solution: bool,
+    ) -> (u64, u64, u64, u64, bool) {
+        let public_key = tester.get_public_key().await;
+        let time_keeper = TestTimeKeeper {};
+        let mut tip_id = tester.get_latest_block_id().await;
+        loop {
+            let tx = tester
+                .create_transaction(10_000, 1_000, public_key)
+                .await
+                .unwrap();
+            tester.add_transaction(tx).await;
+            tester.wait_till_block_id(tip_id + 1).await.unwrap();
+            tip_id = tester.get_latest_block_id().await;
+            let difficulty = tester
+                .consensus_thread
+                .blockchain_lock
+                .read()
+                .await
+                .get_latest_block()
+                .unwrap()
+                .difficulty;
+            if difficulty >= 2 {
+                break;
+            }
+            assert!(tip_id < 60, "setup: difficulty never reached 2");
+        }
+
+        tester.mining_thread.enabled = false;
+        let tx = tester
+            .create_transaction(10_000, 1_000, public_key)
+            .await
+            .unwrap();
+        tester.add_transaction(tx).await;
+        tester.wait_till_block_id(tip_id + 1).await.unwrap();
+        let (tip_id, tip_hash, tip_difficulty) = {
+            let blockchain = tester.consensus_thread.blockchain_lock.read().await;
+            let block = blockchain.get_latest_block().unwrap();
+            (block.id, block.hash, block.difficulty)
+        };
+        assert!(tip_difficulty >= 1, "setup: the tip asks for mining work");
+        assert!(
+            !tester
+                .consensus_thread
+                .mempool_lock
+                .read()
+                .await
+                .golden_tickets
+                .contains_key(&tip_hash),
+            "setup: no ticket for the tip is pooled yet"
+        );
+
+        // the peer's golden ticket transaction for the tip
+        let mut ticket;
+        loop {
+            let random: SaitoHash = hash(&generate_random_bytes(32).await);
+            ticket = GoldenTicket::create(tip_hash, random, atk_public_key);
+            if ticket.validate(tip_difficulty) == valid_solution {
+                break;
+            }
+        }
+        let ticket_tx =
+            Wallet::create_golden_ticket_transaction(ticket, &atk_public_key, &atk_private_key)
+                .await;
+        tester
+            .routing_thread
+            .process_network_event(NetworkEvent::IncomingNetworkMessage {
+                peer_index,
+                buffer: Message::Transaction(ticket_tx).serialize(),
+            })
+            .await;
+        tester
+            .run_until(time_keeper.get_timestamp_in_ms() + 300)
+            .await
+            .unwrap();
+        {
+            let mempool = tester.consensus_thread.mempool_lock.read().await;
+            let pooled = mempool.golden_tickets.get(&tip_hash);
+            // (on the repaired tree the bundler may already have dropped a ticket that does not solve the tip)
+            let _ = pooled;
+        }
+        assert_eq!(tester.get_latest_block_id().await, tip_id);
+
+        // the node's own miner works on the tip again, and an honest user sends a transaction
+        let mined_before = tester.mining_thread.mined_golden_tickets;
+        tester.mining_thread.enabled = true;
+        tester.mining_thread.target = tip_hash;
+        tester.mining_thread.target_id = tip_id;
+        tester.mining_thread.difficulty = tip_difficulty;
+        tester.mining_thread.miner_active = true;
+        let tx = tester
+            .create_transaction(10_000, 1_000, public_key)
+            .await
+            .unwrap();
+        tester.add_transaction(tx).await;
+
+        let deadline = time_keeper.get_timestamp_in_ms() + 5_000;
+        while time_keeper.get_timestamp_in_ms() < deadline
+            && tester.get_latest_block_id().await == tip_id
+        {
+            tester
+                .run_until(time_keeper.get_timestamp_in_ms() + 50)
+                .await
+                .unwrap();
+        }
+        let latest_block_id = tester.get_latest_block_id().await;
+        let mined = tester.mining_thread.mined_golden_tickets - mined_before;
+        let still_pooled = {
+            let mempool = tester.consensus_thread.mempool_lock.read().await;
+            mempool
+                .golden_tickets
+                .get(&tip_hash)
+                .map(|(tx, _)| tx.from[0].public_key == atk_public_key)
+                .unwrap_or(false)
+        };
+        (tip_id, tip_difficulty, latest_block_id, mined, still_pooled)
+    }
+
+    NodeTester::delete_data().await.unwrap();
+    let mut tester = NodeTester::default();
+    let public_key = tester.get_public_key().await;
+    let issuance = vec![(public_key.to_base58(), 100_000 * NOLAN_PER_SAITO)];
+    tester.set_issuance(issuance).await.unwrap();
+    tester.set_staking_enabled(false).await;
+    tester.init().await.unwrap();
+    tester.wait_till_block_id(1).await.unwrap();
+
+    // a peer connects (no handshake is needed to send transactions)
+    let peer_index = 77;
+    tester
+        .routing_thread
+        .process_network_event(NetworkEvent::PeerConnectionResult {
+            result: Ok((peer_index, None)),
+        })
+        .await;
+    let (atk_public_key, atk_private_key) = generate_keys();
+
+    // control: the peer's ticket solves the tip : the next block is produced with it
+    let (tip_id, tip_difficulty, latest_block_id, _, _) = round(
+        &mut tester,
+        peer_index,
+        atk_public_key,
+        atk_private_key,
+        true,
+    )
+    .await;
+    assert!(
+        latest_block_id > tip_id,
+        "control: with a peer's valid ticket (difficulty {}) for tip {} the next block is produced, chain is at {}",
+        tip_difficulty,
+        tip_id,
+        latest_block_id
+    );
+
+    // hostile: the same, but the solution in the peer's ticket does not meet the difficulty
+    let (tip_id, tip_difficulty, latest_block_id, mined, still_pooled) = round(
+        &mut tester,
+        peer_index,
+        atk_public_key,
+        atk_private_key,
+        false,
+    )
+    .await;
+    if !(latest_block_id > tip_id) { witness(format!("one golden ticket transaction from a peer, whose solution does not meet difficulty {} of tip {}, stalled block production: after 50_000 s of node time the chain is still at block {} although a fee-paying transaction is pooled and the node's own miner found {} valid ticket(s) for the tip (dropped as duplicates); the peer's ticket is still the one pooled for the tip ({}) and every block bundled with it fails validation. hostile input must at worst be rejected, not stop the node from producing blocks (with a valid ticket the same steps produced the next block)", tip_difficulty, tip_id, latest_block_id, mined, still_pooled)); }
+}
